@@ -123,7 +123,8 @@ pub struct DefaultDecl {
     #[serde(with = "hex")]
     pub value: u128,
     pub named_const: bool,
-    /// 10, 16, 2
+    /// 10, 16, 2, 8; 17 / 3: hex / binary with `_` separators; 110 / 116 / 102: decimal / hex / binary literal
+    /// carrying the type suffix of the storage integer (`0x567u16` for a u14 base)
     pub radix: u8,
     /// name of the named constant (default: DEF_<STRUCT>)
     #[serde(default)]
@@ -201,7 +202,8 @@ impl EnumDecl {
         t
     }
     pub fn lookup(&self, raw: u128) -> Option<usize> {
-        self.table().iter().find(|(d, _)| *d == raw).map(|(_, i)| *i)
+        // same as searching `table()`, without building it (enums with hundreds of variants are swept value by value)
+        self.variants.iter().position(|v| v.cfg != Cfg::Never && matches!(v.disc, Disc::Lit { value, .. } if value == raw))
     }
     /// Does new_with_raw_value return Self directly (true) or Result<Self, _> (false)?
     pub fn returns_plain(&self) -> bool {
@@ -237,6 +239,11 @@ pub struct Layout {
     /// by bare type name would mix them up.
     #[serde(default)]
     pub decoys: u8,
+    /// attributes the user puts on the struct and the macro passes through: bit 0 `#[derive(Default)]` (only
+    /// rendered when no `default` is declared — the macro implements Default itself otherwise), bit 1
+    /// `#[derive(PartialEq, Eq)]`, bit 2 `#[derive(Debug)]` (only rendered without the `debug` option)
+    #[serde(default)]
+    pub derives: u8,
 }
 
 pub fn is_native_width(bits: u32) -> bool {
